@@ -496,12 +496,9 @@ Definition rdo_call (s : rstate) (t : N) (k : call) : rstate :=
     | OReadQLen =>
       if (0 <=? v)%Z then
         (* a new queue replaces the old one (its messages are lost); everybody waiting on the old one starts over:
-           blocked receiver goroutines drop their message, blocked RecvMsg calls re-arm their deadline *)
+           blocked receiver goroutines drop their message, blocked RecvMsg calls wait on the new queue with the deadline of
+           their call (the code as found restarted the deadline: repaired in /repo) *)
         let s := rset_q (rset_opts s (r_closed s) (r_wqlen s) (Z.to_N v) (r_recvExp s)) [] [] in
-        let ths := r_threads s in
-        let s := fold_left (fun s th => rset_timers s (del_timer (rt_timer th) (r_timers s)) (r_ntimer s)) ths (rset_threads s []) in
-        let s := fold_left (fun s th => let '(s, tm) := rarm s (rt_t th) in
-                                        rset_threads s (r_threads s ++ [{| rt_t := rt_t th; rt_timer := tm |}])) ths s in
         remit s (ORet t ROk)
       else remit s (ORet t (RErr EBadValue))
     | _ => remit s (ORet t (RErr EBadOption))
